@@ -406,6 +406,36 @@ impl<'a, 'tcx> BodyCx<'a, 'tcx> {
                 }
             }
         } else if let ty::Ref(_, inner, _) = cty.kind() {
+            // byte-array constants (e.g. the encoded template of format_args!)
+            let is_u8_array = match inner.kind() {
+                ty::Array(et, _) | ty::Slice(et) => matches!(et.kind(), ty::Uint(ty::UintTy::U8)),
+                _ => false,
+            };
+            if is_u8_array {
+                if let Ok(val) = c.const_.eval(tcx, self.tenv, c.span) {
+                    let bytes: Option<Vec<u8>> = match val {
+                        ConstValue::Slice { .. } => val.try_get_slice_bytes_for_diagnostics(tcx).map(|b| b.to_vec()),
+                        ConstValue::Scalar(rustc_middle::mir::interpret::Scalar::Ptr(ptr, _)) => {
+                            let (prov, offset) = ptr.into_raw_parts();
+                            let alloc_id = prov.alloc_id();
+                            match tcx.try_get_global_alloc(alloc_id) {
+                                Some(rustc_middle::mir::interpret::GlobalAlloc::Memory(alloc)) => {
+                                    let a = alloc.inner();
+                                    let start = offset.bytes() as usize;
+                                    let len = a.len();
+                                    Some(a.inspect_with_uninit_and_ptr_outside_interpreter(start..len).to_vec())
+                                }
+                                _ => None,
+                            }
+                        }
+                        _ => None,
+                    };
+                    if let Some(b) = bytes {
+                        let hex: String = b.iter().map(|x| format!("{:02x}", x)).collect();
+                        items.push(("bytes", jstr(&hex)));
+                    }
+                }
+            }
             if inner.is_str() {
                 if let Ok(val) = c.const_.eval(tcx, self.tenv, c.span) {
                     if let ConstValue::Slice { .. } = val {
